@@ -102,7 +102,7 @@ def main():
         ],
         "checks": checks,
         "not_applicable": na,
-        "notes": "All checks: exit 0 held / 1 VIOLATION (replayed in a fresh process first) / 2 harness error. VERIF_SEED selects the batch; default 1. Known findings: /verif/known_findings.txt (six fixed: entries - F1 F2 F4 F5 F6 F7 and their commits in /repo - and one known: entry, F8: simplify_with::<2> panics in the register allocator). Seeded property-breaking changes and which check catches them: /verif/seeded, DESIGN.md 11.4. Self-tests (run.sh setup): in-process determinism and executor-model validation against real rayon; tools/determinism.sh is the cross-process proof.",
+        "notes": "All checks: exit 0 held / 1 VIOLATION (replayed in a fresh process first) / 2 harness error. VERIF_SEED selects the batch; default 1. Known findings: /verif/known_findings.txt (seven fixed: entries - F1 F2 F4 F5 F6 F7 F9 and their commits in /repo - and one known: entry, F8: simplify_with::<2> panics in the register allocator). Seeded property-breaking changes and which check catches them: /verif/seeded, DESIGN.md 11.4. Self-tests (run.sh setup): in-process determinism and executor-model validation against real rayon; tools/determinism.sh is the cross-process proof.",
     }
     json.dump(m, open("/verif/MANIFEST.json", "w"), indent=1)
     print("wrote MANIFEST.json:", len(checks), "checks,", len(na), "n/a")
